@@ -12,11 +12,11 @@ use bc_envelope::SignatureMetadata;
 use bc_components::Signer as _;
 use std::collections::HashSet;
 
-fn bytes_of(e: &Envelope) -> Vec<u8> { e.tagged_cbor().to_cbor_data() }
+pub(crate) fn bytes_of(e: &Envelope) -> Vec<u8> { e.tagged_cbor().to_cbor_data() }
 
 /// import an implementation-made envelope into the scenario: the model decodes the same
 /// bytes, so shape, digest tree and re-encoding are compared
-fn import(c: &mut Ctx, e: &Envelope) -> String {
+pub(crate) fn import(c: &mut Ctx, e: &Envelope) -> String {
     let r = c.assign(&format!("decode {}", hex::encode(bytes_of(e))));
     c.note_shape(e);
     c.obs(&format!("shape {}", r));
@@ -26,7 +26,7 @@ fn import(c: &mut Ctx, e: &Envelope) -> String {
     r
 }
 
-fn base_envelope(c: &mut Ctx, depth: usize) -> Envelope {
+pub(crate) fn base_envelope(c: &mut Ctx, depth: usize) -> Envelope {
     let mut scratch = Ctx::new("scratch", c.rng.next());
     scratch.begin("x");
     let cfg = GenCfg::default();
@@ -43,9 +43,9 @@ fn base_envelope(c: &mut Ctx, depth: usize) -> Envelope {
     Envelope::new("fallback")
 }
 
-struct Signer { name: &'static str, sk: SigningPrivateKey, pk: SigningPublicKey, opts: Option<SigningOptions> }
+pub(crate) struct Signer { pub name: &'static str, pub sk: SigningPrivateKey, pub pk: SigningPublicKey, pub opts: Option<SigningOptions> }
 
-fn signers(thorough: bool) -> Vec<Signer> {
+pub(crate) fn signers(thorough: bool) -> Vec<Signer> {
     let mut v = vec![];
     let mut schemes = vec![("schnorr", SignatureScheme::Schnorr), ("ecdsa", SignatureScheme::Ecdsa), ("ed25519", SignatureScheme::Ed25519), ("ssh-ed25519", SignatureScheme::SshEd25519), ("mldsa44", SignatureScheme::MLDSA44)];
     if thorough { schemes.push(("ssh-ecdsa-p256", SignatureScheme::SshEcdsaP256)); schemes.push(("mldsa65", SignatureScheme::MLDSA65)); }
@@ -164,6 +164,7 @@ pub fn c09(c: &mut Ctx, b: &Budget) {
                     let s = &sg[j];
                     let is_victims = obj.extract_subject::<bc_components::Signature>().map(|sgn| bc_components::Verifier::verify(&s.pk, &sgn, e.subject().digest().data())).unwrap_or(false);
                     if is_victims { continue; }
+                    if s.name.starts_with("ssh-ecdsa") && !raw_valid(&signed, &s.pk) { continue; }
                     let got = guarded(|| x.has_signature_from(&s.pk));
                     c.count("branch:other-signature-elided");
                     c.check("verifies-with-other-signature-elided", matches!(got, Ok(Ok(true))), "order-dependent-error", || format!("key {} no longer verifies after ANOTHER signer's signature object was elided: {:?} on {}", s.name, got.map(|r| r.map_err(|e| e.to_string())), shape(&x)));
@@ -189,7 +190,8 @@ pub fn c09(c: &mut Ctx, b: &Budget) {
         }
         // threshold
         let keys: Vec<&dyn bc_envelope::Verifier> = sg.iter().map(|s| &s.pk as &dyn bc_envelope::Verifier).collect();
-        let valid = chosen.len();
+        // (a signer whose own signature the dependency refuses - the recorded SSH-ECDSA finding, reported by verify_all above - does not count)
+        let valid = chosen.iter().filter(|&&j| !(sg[j].name.starts_with("ssh-ecdsa") && !raw_valid(&signed, &sg[j].pk))).count();
         for t in 1..=(sg.len() + 1) {
             let got = guarded(|| signed.has_signatures_from_threshold(&keys, Some(t)));
             c.check("threshold-iff", matches!(got, Ok(Ok(v)) if v == (valid >= t)), "threshold", || format!("threshold {} with {} valid of {}: {:?}", t, valid, sg.len(), got.map(|r| r.map_err(|e| e.to_string()))));
